@@ -399,4 +399,20 @@ def malformed_lists(rng, tier):
         elif r < 0.8: L.insert(pos, L[pos]);
         else: L.insert(pos, L[pos]); L.insert(pos, L[pos])
         out.append(L)
+    # non-adjacent disorder inside long runs of keys that share a prefix: one foreign / displaced key in the middle
+    for n in ([40, 100] if tier == 'quick' else [18, 19, 33, 40, 100, 300, 1000]):
+        for width in (2, 3):
+            base = [b'item' + str(i).zfill(width).encode() for i in range(n)] if 10 ** width >= n else None
+            if base is None: continue
+            for _ in range(6 if tier == 'quick' else 20):
+                L = list(base); i = rng.randrange(1, n - 1)
+                kind = rng.choice(['foreign-first-byte', 'foreign-last-byte', 'move-far', 'swap-far', 'dup-far', 'shorten'])
+                if kind == 'foreign-first-byte': L[i] = bytes([L[i][0] + 1]) + L[i][1:]
+                elif kind == 'foreign-last-byte': L[i] = L[i][:-1] + bytes([rng.choice([0x00, 0x2f, 0x3a, 0xff])])
+                elif kind == 'move-far': k = L.pop(i); L.insert(rng.randrange(len(L) + 1), k)
+                elif kind == 'swap-far': j = rng.randrange(n); L[i], L[j] = L[j], L[i]
+                elif kind == 'dup-far': L.insert(rng.randrange(len(L) + 1), L[i])
+                else: L[i] = L[i][:rng.randrange(len(L[i]))]
+                if not all(L[x] < L[x + 1] for x in range(len(L) - 1)):
+                    out.append(L)
     return out
